@@ -579,6 +579,9 @@ def check_tables(ck, iss, dec, it, dt):
             const = [x for r, x in roles if r == "const"]
             ck.ob("C24.codec", dec, nd.ast, len(const) == 1 and roles[0][0] == "const" and d["ver"] is not None and _b(const[0]) == str(d["ver"]).encode(), "the masked format is decoded under version == %s, the constant the issuer writes first (%r)" % (d["ver"], const[:1]),
                   construct="version constant")
+            # length constraints the decoder adds on the way to this return must be guaranteed by the issuer:
+            # the mask is exactly the issuer's width, the secret has whatever length the cookie carries
+            length_constraints(ck, dec, d, fm[0], fd[0], enc)
             # timestamp position
             ts = d["ts"]
             ft = split_field(ts.args[0]) if isinstance(ts, ast.Call) and q.call_attr(ts) == "int" and ts.args else None
@@ -605,8 +608,70 @@ def check_tables(ck, iss, dec, it, dt):
                     kinds.append("other:" + (q.unparse(v)[:40] if v is not None else kd))
             ck.ob("C24.codec", dec, nd.ast, "hex" in kinds and all(k in ("hex", "verbatim") for k in kinds),
                   "a token returned without the masked format is the inverse hex codec of the whole cookie text (or the text itself when it is not hex); definitions %s" % sorted(set(kinds)), construct="plain codec")
+            length_constraints(ck, dec, d, None, None, enc[0], param)
             ck.ob("C24.codec", dec, nd.ast, d["unversioned"], "the plain (version 1) decoding is used only on the path where the text carries no version prefix - never as a fallback for a malformed versioned token",
                   construct="plain decoding path")
+
+
+def length_constraints(ck, dec, d, mask_idx, masked_idx, enc, param=None):
+    from ..x_secflow import guarding_tests
+    import copy
+
+    rd, nd = d["rd"], d["node"]
+    width = 4
+
+    def kind_of(x):
+        """which token part the argument of len() is: 'mask' | 'secret' | None"""
+        k = None
+        for y in ast.walk(x):
+            u = is_unpack(y)
+            if u is not None and isinstance(u[0], ast.Call) and q.call_attr(u[0]) == "split":
+                if u[1] == masked_idx:
+                    return "secret"
+                if u[1] == mask_idx:
+                    k = "mask"
+            if isinstance(y, ast.Call) and q.call_attr(y) == "_websocket_mask":
+                return "secret"
+            if masked_idx is None and isinstance(y, ast.Name) and (y.id == param or y.id.split("@")[0] == getattr(d["tok_raw"], "id", None)):
+                return "secret"  # plain format: the whole text (or its hex decoding) is the secret
+        return k
+
+    for t, edge in guarding_tests(dec.cfg, nd):
+        E = rd.expand(t.ast, t)
+        lens = [x for x in ast.walk(E) if isinstance(x, ast.Call) and isinstance(x.func, ast.Name) and x.func.id == "len" and len(x.args) == 1 and kind_of(x.args[0])]
+        if not lens:
+            continue
+        kinds = {kind_of(x.args[0]) for x in lens}
+        if len(kinds) != 1:
+            raise AnalysisError("_decode_xsrf_token: length test mixing mask and secret: %s" % q.unparse(t.ast)[:80])
+        part = kinds.pop()
+
+        class L(ast.NodeTransformer):
+            def visit_Call(self, node):
+                if any(node is x for x in lens):
+                    return ast.Name(id="__L", ctx=ast.Load())
+                return self.generic_visit(node)
+
+        # re-find the len nodes in a copy (identity is lost by deepcopy): substitute by structure
+        dumps = {ast.dump(x) for x in lens}
+
+        class L2(ast.NodeTransformer):
+            def visit_Call(self, node):
+                if ast.dump(node) in dumps:
+                    return ast.Name(id="__L", ctx=ast.Load())
+                return self.generic_visit(node)
+
+        F = L2().visit(copy.deepcopy(E))
+        try:
+            passing = {n_ for n_ in range(0, 129) if bool(q.fold(F, {"__L": n_})) == (edge == "true")}
+        except q.NotFoldable:
+            raise AnalysisError("_decode_xsrf_token: length test not evaluable: %s" % q.unparse(t.ast)[:80])
+        if part == "mask":
+            ck.ob("C24.codec", dec, t.ast, width in passing, "a length test on the mask admits the issuer's mask width (%d bytes)" % width)
+        else:
+            rejected = sorted(set(range(1, 129)) - passing)
+            ck.ob("C24.codec", dec, t.ast, not rejected, "the decoder accepts a masked secret of any non-zero length: the issuer masks whatever secret the cookie carries (a version 1 cookie's secret need not be 16 bytes)%s"
+                  % ("" if not rejected else "; rejected lengths e.g. %s" % rejected[:4]))
 
 
 def check_cookie_set(ck, iss, cookie_name_expr):
@@ -642,6 +707,21 @@ def check_cookie_set(ck, iss, cookie_name_expr):
     ck.floor("C24.cookie-set", k, 1, "fresh-token paths of xsrf_token")
 
 
+VOCABULARY = {"_execute", "_decode_xsrf_token", "_get_raw_xsrf_token", "_websocket_mask", "_signed_value_version_re"}
+INGREDIENTS = {"check_xsrf_cookie", "xsrf_cookies", "prepare", "method", "_prepared_future", "_decode_xsrf_token", "_get_raw_xsrf_token", "compare_digest", "_xsrf", "X-Xsrftoken", "X-Csrftoken",
+               "a2b_hex", "b2a_hex", "_websocket_mask", "set_cookie", "get_cookie", "_xsrf_token", "_raw_xsrf_token", "xsrf_cookie_version", "xsrf_cookie_name"}
+
+
+def normalise(ck):
+    """Inline private helpers split off the anchored methods (only helpers that carry part of the mechanism)."""
+    from ..x_secinline import inlined, mentions_any
+
+    roots = [RH + "." + m for m in ("_execute", "check_xsrf_cookie", "_decode_xsrf_token", "_get_raw_xsrf_token", "xsrf_token")]
+    ck.repo = inlined(ck.repo, W, roots, lambda name, h: name in VOCABULARY, lambda h: mentions_any(h, INGREDIENTS))
+    for nm in getattr(ck.repo, "inlined_helpers", []):
+        ck.note("inlined private helper %s into its caller before analysis" % nm)
+
+
 # ---------------------------------------------------------------------------
 
 
@@ -655,6 +735,7 @@ def run(ck):
     ck.rule("C24.codec", "xsrf_token and _decode_xsrf_token agree on arity, separator, field positions, inverse codecs, mask width and the version constant")
     ck.rule("C24.cookie-set", "a freshly generated token is sent as the _xsrf cookie (same name, same value)")
 
+    normalise(ck)
     ex = ck.func(W, RH + "._execute")
     chk = ck.func(W, RH + ".check_xsrf_cookie")
     dec = ck.func(W, RH + "._decode_xsrf_token")
@@ -760,6 +841,9 @@ MUTANTS = [
     ("issuer writes a 2-byte mask", _in("xsrf_token", replace_expr(lambda n: isinstance(n, ast.Call) and q.dotted(n.func) == "os.urandom", lambda n: parse_expr("os.urandom(2)"))), "C24.codec"),
     ("malformed token falls back to its raw text", _in("_decode_xsrf_token", replace_stmt(lambda st: isinstance(st, ast.Return) and ast.unparse(st.value) == "(None, None, None)", lambda st: [parse_stmt("return None, utf8(cookie), None")])), "C24.codec"),
     ("empty v2 token replaced by the mask", _in("_decode_xsrf_token", replace_stmt(lambda st: isinstance(st, ast.Return) and ast.unparse(st.value) == "(version, token, timestamp)", lambda st: [parse_stmt("return version, token or mask, timestamp")], limit=1)), "C24.codec"),
+    ("seeded C24-adv3: decoder rejects masked secrets that are not 16 bytes", _in("_decode_xsrf_token", replace_stmt(lambda st: isinstance(st, ast.Assign) and "_websocket_mask" in ast.unparse(st.value), lambda st: [parse_stmt("if len(mask) != 4 or len(binascii.a2b_hex(utf8(masked_token))) != 16:\n    raise ValueError('Malformed xsrf token')"), st])), "C24.codec"),
+    ("decoder requires secrets of at least 16 bytes", _in("_decode_xsrf_token", replace_stmt(lambda st: isinstance(st, ast.Return) and ast.unparse(st.value) == "(version, token, timestamp)", lambda st: [parse_stmt("if len(token) < 16:\n    raise ValueError('short token')"), st], limit=1)), "C24.codec"),
+    ("decoder insists on an 8-byte mask", _in("_decode_xsrf_token", replace_stmt(lambda st: isinstance(st, ast.Assign) and "_websocket_mask" in ast.unparse(st.value), lambda st: [parse_stmt("if len(mask) != 8:\n    raise ValueError('bad mask')"), st])), "C24.codec"),
     ("fresh token not sent as cookie for anonymous users", _in("xsrf_token", replace_expr(lambda n: isinstance(n, ast.Compare) and ast.unparse(n) == "version is None", lambda n: parse_expr("version is None and self.current_user"), limit=1)), "C24.cookie-set"),
     ("raw token: decoded cookie read from the version slot", _in("_get_raw_xsrf_token", replace_stmt(lambda st: isinstance(st, ast.Assign) and "_decode_xsrf_token" in ast.unparse(st), lambda st: [parse_stmt("token, version, timestamp = self._decode_xsrf_token(cookie)")])), "C24.token-position"),
 ]
